@@ -17,6 +17,7 @@ go build -o /tmp/pv_regen .
 /tmp/pv_regen -dump calledges     > pinned_call_edges.json
 /tmp/pv_regen -dump mustwrite     > pinned_must_write.json
 /tmp/pv_regen -dump failureguards > pinned_failure_guards.json
+/tmp/pv_regen -dump panicguards   > pinned_panic_guards.json
 go build -o /verif/bin/pv .
 rm -f /tmp/pv_regen
 ls -la pinned_*.json
